@@ -116,6 +116,10 @@ type Contract struct {
 	Params   []string // names in order: receiver, params
 	Results  []string
 	allCl    []*Clause
+	OwnModifies []string // own-modifies: what the function itself writes, apart from the effects of its callbacks
+	OwnMods     []*ModItem
+	HasOwn      bool
+	CbInvs      map[string][]*Clause // site NAME: callback-invariant ... (kept by the callbacks passed to NAME)
 }
 
 func (c *Contract) HasProp(p string) bool {
@@ -303,6 +307,13 @@ func parseContractFile(path, pkgDir string, src []byte) (*ContractFile, error) {
 			for _, it := range splitTop(rest, ',') {
 				cur.Modifies = append(cur.Modifies, strings.TrimSpace(it))
 			}
+		case "own-modifies":
+			cur.HasOwn = true
+			for _, it := range splitTop(rest, ',') {
+				if strings.TrimSpace(it) != "" {
+					cur.OwnModifies = append(cur.OwnModifies, strings.TrimSpace(it))
+				}
+			}
 		case "loop":
 			j := strings.Index(rest, ":")
 			if j < 0 {
@@ -373,6 +384,15 @@ func parseContractFile(path, pkgDir string, src []byte) (*ContractFile, error) {
 			}
 			name := strings.TrimSpace(rest[:j])
 			sub := strings.TrimSpace(rest[j+1:])
+			if strings.HasPrefix(sub, "callback-invariant") {
+				cl := mk("siterequires", strings.TrimSpace(strings.TrimPrefix(sub, "callback-invariant")))
+				cl.Callback = name
+				if cur.CbInvs == nil {
+					cur.CbInvs = map[string][]*Clause{}
+				}
+				cur.CbInvs[name] = append(cur.CbInvs[name], cl)
+				break
+			}
 			if !strings.HasPrefix(sub, "requires") {
 				return nil, fmt.Errorf("%s:%d: site NAME: requires ...", path, lineNo)
 			}
@@ -463,6 +483,16 @@ func parseContractFile(path, pkgDir string, src []byte) (*ContractFile, error) {
 		sort.Strings(sn)
 		for _, k := range sn {
 			for _, cl := range c.Sites[k] {
+				lbl(cl)
+			}
+		}
+		var cin []string
+		for k := range c.CbInvs {
+			cin = append(cin, k)
+		}
+		sort.Strings(cin)
+		for _, k := range cin {
+			for _, cl := range c.CbInvs[k] {
 				lbl(cl)
 			}
 		}
@@ -1078,6 +1108,9 @@ func (g *genCtx) generate(cf *ContractFile) (string, error) {
 			return out, nil
 		}
 		if c.Mods, err = genMods(c.Modifies, vars); err != nil {
+			return "", fmt.Errorf("%s:%d: %v", cf.Path, c.Line, err)
+		}
+		if c.OwnMods, err = genMods(c.OwnModifies, vars); err != nil {
 			return "", fmt.Errorf("%s:%d: %v", cf.Path, c.Line, err)
 		}
 		for name, cb := range c.Cbs {
